@@ -270,4 +270,164 @@ theorem swclike_to_swc_refines (T : Tbl F) (n : Nat) (hr : Reads get T) (hn : T.
   rcases source with (_ | _) | s <;> cases wc <;>
     simp [BoolOrStr.isBool, BoolOrStr.isStr, BoolOrStr.format, Py.finish, textG, writtenG, sourceText, strTruthy]
 
+/-! ## Part 2: the specification is the hand-written writer model -/
+
+section Model
+open SwcText
+
+/-- the float payload of the hand-written model: sign bit and magnitude in units of 10⁻⁴ (what CPython's `.4f` rounds the value to) -/
+abbrev WF := Bool × Nat
+
+/-- `f"{v:.4f}"` on that payload -/
+def mfmt4 (p : WF) : String := String.ofList (SwcText.fmt4 p.1 p.2)
+
+/-- the table of a row list -/
+def tblOf (rows : List WRow) : Tbl WF :=
+  ⟨rows.map (fun w => (w.id : Int)), rows.map (fun w => (w.type : Int)), rows.map (·.x), rows.map (·.y), rows.map (·.z), rows.map (·.r),
+   rows.map (·.pid)⟩
+
+/-- ids are the row positions (what a `Tree` guarantees) -/
+def Positions (rows : List WRow) : Prop := ∀ k (h : k < rows.length), rows[k].id = k
+
+theorem tblOf_rect (rows : List WRow) : (tblOf rows).Rect rows.length := by simp [Tbl.Rect, tblOf]
+
+theorem tblOf_ids_range (rows : List WRow) (hp : Positions rows) : ∀ j ∈ (tblOf rows).ids, 0 ≤ j ∧ j < (rows.length : Int) := by
+  intro j hj
+  simp only [tblOf, List.mem_map] at hj
+  obtain ⟨w, hw, rfl⟩ := hj
+  obtain ⟨k, hk, rfl⟩ := List.getElem_of_mem hw
+  rw [hp k hk]; omega
+
+theorem isSpaceChar_eq : Py.isSpaceChar = SwcText.isWs := rfl
+
+theorem strIsSpace_toList (s : String) : strIsSpace s = isSpaceStr s.toList := rfl
+
+theorem dropWhile_isWs : ∀ l : Str, l.dropWhile isWs = dropWs l := by
+  intro l
+  induction l with
+  | nil => rfl
+  | cons c cs ih => by_cases h : isWs c = true <;> simp [List.dropWhile, dropWs, h, ih]
+
+theorem strLstrip_toList (s : String) : (strLstrip s).toList = dropWs s.toList := by
+  simp [strLstrip, isSpaceChar_eq, dropWhile_isWs]
+
+theorem commentLineG_toList (c : String) : (commentLineG c).toList = commentLine c.toList := by
+  unfold commentLineG commentLine
+  rw [strIsSpace_toList]
+  have h1 : "#\n".toList = ['#', '\n'] := by decide
+  have h2 : "# ".toList = ['#', ' '] := by decide
+  have h3 : "\n".toList = ['\n'] := by decide
+  split <;> simp [String.toList_append, strLstrip_toList, h1, h2, h3]
+
+theorem headerLineG_toList : headerLineG.toList = headerLine := by decide +kernel
+
+theorem digitChar_eq : ∀ n, n < 10 → Nat.digitChar n = SwcText.digitChar n := by decide
+
+theorem toDigits_eq_digits : ∀ n : Nat, Nat.toDigits 10 n = digits n := by
+  intro n
+  induction n using Nat.strongRecOn with
+  | _ n ih =>
+    by_cases h : n < 10
+    · rw [Nat.toDigits_of_lt_base h, digits, dif_pos h, digitChar_eq n h]
+    · rw [digits, dif_neg h, ← ih (n / 10) (by omega)]
+      have hm : n % 10 < 10 := Nat.mod_lt _ (by omega)
+      have := Nat.toDigits_append_toDigits (b := 10) (n := n / 10) (d := n % 10) (by omega) (by omega) hm
+      rw [Nat.div_add_mod] at this
+      rw [← this, Nat.toDigits_of_lt_base hm, digitChar_eq _ hm]
+
+theorem strInt_nat (n : Nat) : (strInt (n : Int)).toList = digits n := by
+  show (Int.repr (Int.ofNat n)).toList = _
+  simp [Int.repr, Nat.repr, toDigits_eq_digits]
+
+theorem strInt_toList (i : Int) : (strInt i).toList = showInt i := by
+  cases i with
+  | ofNat n =>
+    have : ¬ (Int.ofNat n < 0) := by simp
+    rw [showInt, if_neg this]
+    exact strInt_nat n
+  | negSucc m =>
+    have : Int.negSucc m < 0 := Int.negSucc_lt_zero m
+    rw [showInt, if_pos this]
+    show (Int.repr (Int.negSucc m)).toList = _
+    have h : "-".toList = ['-'] := by decide
+    simp [Int.repr, Nat.repr, toDigits_eq_digits, String.toList_append, h]
+
+theorem showInt_nat (n : Nat) : showInt (n : Int) = digits n := by
+  have : ¬ ((n : Int) < 0) := by omega
+  rw [showInt, if_neg this, Int.toNat_natCast]
+
+theorem strJoin_empty_toList : ∀ l : List String, (strJoin "" l).toList = (l.map String.toList).flatten := by
+  intro l
+  induction l with
+  | nil => simp [strJoin]
+  | cons a l ih =>
+    cases l with
+    | nil => simp [strJoin]
+    | cons b l => simp only [strJoin, String.toList_append] at ih ⊢; simp [ih]
+
+theorem getD_map {α β : Type} (f : α → β) (l : List α) (k : Nat) (h : k < l.length) (d : β) : (l.map f).getD k d = f l[k] := by
+  simp [List.getD, h]
+
+/-- the data line built from table position `k` is the model's line of row `k` -/
+theorem rowAt_toList (rows : List WRow) (off : Nat) (k : Nat) (h : k < rows.length) :
+    (rowAt mfmt4 (off : Int) (tblOf rows) k).toList = formatRow off rows[k] := by
+  have hd := names_distinct
+  simp only [cols7, List.nodup_cons, List.mem_cons, List.not_mem_nil, or_false, not_or, List.nodup_nil, and_true] at hd
+  obtain ⟨⟨a1, a2, a3, a4, a5, a6⟩, ⟨b2, b3, b4, b5, b6⟩, ⟨c3, c4, c5, c6⟩, ⟨d4, d5, d6⟩, ⟨e5, e6⟩, f6, -⟩ := hd
+  have cells : cols7.map (cellText mfmt4 (off : Int) (tblOf rows) k) =
+      [strInt (((rows[k].id + off : Nat) : Int)), strInt ((rows[k].type : Nat) : Int), mfmt4 rows[k].x, mfmt4 rows[k].y, mfmt4 rows[k].z,
+       mfmt4 rows[k].r, strInt (if rows[k].pid = -1 then -1 else rows[k].pid + off)] := by
+    simp only [cols7, List.map_cons, List.map_nil, cellText, tblOf, getD_map _ rows k h, if_true,
+      Ne.symm a1, Ne.symm a2, Ne.symm a3, Ne.symm a4, Ne.symm a5, Ne.symm a6, Ne.symm b2, Ne.symm b3, Ne.symm b4, Ne.symm b5, Ne.symm b6,
+      Ne.symm c3, Ne.symm c4, Ne.symm c5, Ne.symm c6, Ne.symm d4, Ne.symm d5, Ne.symm d6, Ne.symm e5, Ne.symm e6, Ne.symm f6, if_false, pidOut]
+    by_cases hp : rows[k].pid = -1 <;> simp [hp]
+  have hs : " ".toList = [' '] := by decide
+  have hn : "\n".toList = ['\n'] := by decide
+  rw [rowAt, cells]
+  simp only [strJoin, String.toList_append, mfmt4, String.toList_ofList, hs, hn, formatRow, strInt_toList]
+  rw [showInt_nat, showInt_nat]
+  simp
+
+/-- the lines of the specification are the model's lines -/
+theorem linesG_toList (rows : List WRow) (hp : Positions rows) (off : Nat) (comments : List String) :
+    (linesG mfmt4 (off : Int) (tblOf rows) comments).map String.toList = writeLines off (comments.map String.toList) rows := by
+  simp only [linesG, writeLines, List.map_append, List.map_cons, List.map_map, headerLineG_toList]
+  congr 1
+  · apply List.map_congr_left; intro c _; exact commentLineG_toList c
+  · congr 1
+    apply List.ext_getElem
+    · simp [tblOf]
+    · intro k h1 h2
+      have hk : k < rows.length := by simpa [tblOf] using h1
+      simp only [tblOf, List.getElem_map, Function.comp, hp k hk, Int.toNat_natCast]
+      exact rowAt_toList rows off k hk
+
+variable (get : String → Py.Col WF)
+
+/-- **the generated `io.to_swc` yields the lines of `SwcText.writeLines`**, character for character: every row list whose ids are the row
+positions, every offset `≥ 0`, comments absent or any list -/
+theorem to_swc_eq_writeLines (rows : List WRow) (hr : Reads get (tblOf rows)) (hp : Positions rows) (comments : Option (List String)) (off : Nat) :
+    (to_swc mfmt4 get comments (off : Int)).map (fun r => r.1.map String.toList)
+      = some (writeLines off ((comments.getD []).map String.toList) rows) := by
+  rw [to_swc_refines mfmt4 get (tblOf rows) rows.length hr (tblOf_rect rows) (tblOf_ids_range rows hp)]
+  simp [linesG_toList rows hp]
+
+/-- the `source` argument of the model: the header text, if one is written -/
+def sourceStr (self : SWCLike) (source : BoolOrStr) : Option Str := (sourceText self source).map String.toList
+
+/-- **the generated `SWCLike.to_swc` returns the text of `SwcText.writeSwc`** (the concatenation of its lines): same domain, every
+`source` argument and attribute, both values of `comments` -/
+theorem swclike_to_swc_eq_writeSwc (rows : List WRow) (hr : Reads get (tblOf rows)) (hp : Positions rows)
+    (self : SWCLike) (source : BoolOrStr) (wc : Bool) (off : Nat) :
+    (swclike_to_swc mfmt4 get self source wc (off : Int)).map String.toList
+      = some (writeSwc off (sourceStr self source) wc (self.comments.map String.toList) rows).flatten := by
+  rw [swclike_to_swc_refines mfmt4 get (tblOf rows) rows.length hr (tblOf_rect rows) (tblOf_ids_range rows hp)]
+  simp only [Option.map_some, textG, strJoin_empty_toList, linesG_toList rows hp, Option.some.injEq]
+  congr 2
+  have hsrc : "source: ".toList = ['s', 'o', 'u', 'r', 'c', 'e', ':', ' '] := by decide
+  unfold writtenG sourceStr
+  cases sourceText self source <;> cases wc <;> simp [String.toList_append, hsrc]
+
+end Model
+
 end RefineWriter
